@@ -158,8 +158,8 @@ def _none_missing(r):
 
 
 def judge(ctx, log, tag):
-    os.makedirs(os.path.join(core.OUT, "traces"), exist_ok=True)
-    path = os.path.join(core.OUT, "traces", "%s_%s.json" % (ctx.pid, tag))
+    os.makedirs(os.path.join(core.OUT, "traces", str(os.getpid())), exist_ok=True)
+    path = os.path.join(core.OUT, "traces", str(os.getpid()), "%s_%s.json" % (ctx.pid, tag))
     with open(path, "w") as fh:
         json.dump(log, fh)
     res = tlc.run("TraceEnum", "TraceEnum.cfg", workers=1, env={"TRACE_FILE": path}, timeout=600)
